@@ -1,3 +1,4 @@
+pub mod astcmp;
 pub mod choices;
 pub mod driver;
 pub mod gen;
